@@ -124,7 +124,9 @@ theorem exec_assignTail (K : PCtx) (exitJ : Nat) (wf : K.WFS exitJ) (n : String)
     have s1 := Step.ldbm (env := K.env) (cfg i w b mem) io 1 _ hat.head (ld_one mem)
     have hst : IAm.store K.env mem (mem.read 1 + IAm.W ((K.S : Int) - 1 + sym.stackOffset)) w = some (mem.write a w) := by
       rw [hr.sp, hsl]; exact store_ofNat _ _ _ _ halt hcode
-    have s2 := Step.stai (env := K.env) (cfg (i + 1) w (mem.read 1) mem) io _ _ hat.tail.head hst
+    have hne1 : (mem.read 1 + IAm.W ((K.S : Int) - 1 + sym.stackOffset)).toNat ≠ 1 := by
+      rw [hr.sp, hsl]; exact ofNat_toNat_ne_one _ ha2 halt
+    have s2 := Step.stai (env := K.env) (cfg (i + 1) w (mem.read 1) mem) io _ _ hat.tail.head hst hne1
     exact ⟨mem.read 1, Steps.step _ _ _ _ _ _ s1 (Steps.one s2)⟩
 
 /-! ### Outcomes -/
